@@ -147,6 +147,34 @@ Proof. vm_compute. reflexivity. Qed.
         c.oblige("Gen_eqshape.equate_stores_shipped (equate's assignments read off the source are the two unconditional stores of Model.Convert.equate: "
                  "both directions of the pair, from the unprefixed operands)", ok, log[-500:])
         c.cov["equate_stores"] = shp
+        # how the package reads the two tables: every occurrence of _ratios / _offsets is `table[unit]` (a row) or the module-level definition;
+        # anything else (membership, len, iteration over the table itself, handing the table on) would see the empty rows that lookups of
+        # a defaultdict register -- hypothesis of C08_lookups_register_nothing_visible
+        import glob as _glob
+        uses, others = [], []
+        for path in sorted(_glob.glob(os.path.join(REPO, "src", "measured", "*.py"))):
+            tree_ = ast.parse(open(path).read())
+            parent = {}
+            for n in ast.walk(tree_):
+                for ch in ast.iter_child_nodes(n): parent[ch] = n
+            for n in ast.walk(tree_):
+                if (isinstance(n, ast.Name) and n.id in ("_ratios", "_offsets")) or (isinstance(n, ast.Attribute) and n.attr in ("_ratios", "_offsets")):
+                    pa = parent.get(n)
+                    if isinstance(pa, ast.Subscript) and pa.value is n: uses.append("URow")
+                    elif isinstance(pa, (ast.AnnAssign, ast.Assign)) and parent.get(pa) is tree_ and (getattr(pa, "target", None) is n or n in getattr(pa, "targets", [])): uses.append("UDef")
+                    else: uses.append("UOther"); others.append(f"{os.path.basename(path)}:{n.lineno}: {ast.unparse(pa)[:70]}")
+                elif isinstance(n, ast.Constant) and n.value in ("_ratios", "_offsets"):
+                    uses.append("UOther"); others.append(f"{os.path.basename(path)}:{n.lineno}: the name as a string")
+        txt4 = f"""From Coq Require Import List Bool. Import ListNotations.
+From Measured Require Import Model.Declare.
+Definition table_uses : list tuse := {clist(uses)}.
+Lemma tables_read_through_rows : only_rows table_uses && negb (Nat.eqb (length table_uses) 0) = true.
+Proof. vm_compute. reflexivity. Qed.
+"""
+        ok, log = c.run_coq({"Gen_rows": txt4})["Gen_rows"]
+        c.oblige(f"Gen_rows.tables_read_through_rows (all {len(uses)} occurrences of _ratios / _offsets in the package are `table[unit]` or the definition: "
+                 "rows registered by lookups are invisible to the planner)", ok, ("; ".join(others) + " " + log[-300:])[:600])
+        c.cov["table_uses"] = {k: uses.count(k) for k in ("URow", "UDef", "UOther")}
     except Exception as ex:
         c.oblige("struct_scan of conversions.py (translator)", False, str(ex))
     nh, nops = (60, 28) if c.tier == "quick" else (600, 45)
